@@ -119,13 +119,56 @@ decreasing_by
 def resize (output : Array UInt8) (n : Nat) : Array UInt8 :=
   output.extract 0 n ++ Array.replicate (n - output.size) 0
 
-/-- `ChaCha20::apply(key, nonce, input, output, counter)` where `output` holds `out0` on entry -/
+/-- first statement of `ChaCha20::apply`: how the output vector is brought to length `n`
+(`Gen.C09.outputPrep`: 0 = `output.resize(n)`, otherwise re-initialised with `Gen.C09.outputFill`) -/
+def prepare (output : Array UInt8) (n : Nat) : Array UInt8 :=
+  if C09.outputPrep = 0 then resize output n else Array.replicate n C09.outputFill
+
+/-- `ChaCha20::apply(key, nonce, input, output, counter)` where `output` holds `out0` on entry and
+`input` is storage disjoint from `output` -/
 def applyInto (key nonce input : List UInt8) (counter : UInt32) (out0 : List UInt8) : List UInt8 :=
-  (applyLoop key nonce input.toArray 0 counter (resize out0.toArray input.length)).toList
+  (applyLoop key nonce input.toArray 0 counter (prepare out0.toArray input.length)).toList
 
 /-- `ChaCha20::apply` into a fresh vector -/
 def apply (key nonce input : List UInt8) (counter : UInt32) : List UInt8 :=
   applyInto key nonce input counter []
+
+/-! ## Aliased use: the input span points into the output vector
+
+`apply(key, nonce, std::span(vec.data(), n), vec, counter)`: the span covers the first `n` bytes of the
+very vector that is written. After the preparation step (no reallocation: `n ≤ capacity`) `input[j]`
+*is* `output[j]`, so every read of the loop sees whatever the vector holds at that moment. -/
+
+/-- the inner `for` when `input` aliases `output`: `output[p+i] = output[p+i] ^ keystream[i]`,
+each byte read immediately before it is overwritten -/
+def xorBlockAliased (buf : Array UInt8) (keystream : List UInt8) (processed blockSize : Nat) : Array UInt8 :=
+  (List.range blockSize).foldl
+    (fun b i => b.setIfInBounds (processed + i) (b.getD (processed + i) 0 ^^^ keystream.getD i 0)) buf
+
+/-- the `while` loop with `input.size() = n` and `input[j] ≡ output[j]` -/
+def applyLoopAliased (key nonce : List UInt8) (n : Nat) (processed : Nat) (counter : UInt32)
+    (buf : Array UInt8) : Array UInt8 :=
+  if processed < n then
+    let keystream := chacha20_block key nonce counter
+    let counter := counter + 1
+    let blockSize := min C09.kBlockSize (n - processed)
+    let buf := xorBlockAliased buf keystream processed blockSize
+    applyLoopAliased key nonce n (processed + blockSize) counter buf
+  else buf
+termination_by n - processed
+decreasing_by
+  have : 0 < C09.kBlockSize := by decide
+  omega
+
+/-- `ChaCha20::apply(key, nonce, span(vec.data(), n), vec, counter)`: the vector afterwards.
+(`n > vec.length` is the case "span over reserved capacity": the preparation step creates those
+bytes before they are read.) -/
+def applyAliased (key nonce vec : List UInt8) (n : Nat) (counter : UInt32) : List UInt8 :=
+  (applyLoopAliased key nonce n 0 counter (prepare vec.toArray n)).toList
+
+/-- in-place transformation of a buffer: `apply(key, nonce, buf, buf, counter)` -/
+def applyInPlace (key nonce buf : List UInt8) (counter : UInt32) : List UInt8 :=
+  applyAliased key nonce buf buf.length counter
 
 /-! ## CryptoManager -/
 
